@@ -156,11 +156,11 @@ def check_quals(ctx, quals, thr_ee, thr_aer):
     got = expected_errors(quals)
     if not math.isclose(got, exp, rel_tol=1e-5, abs_tol=1e-9):
         ctx.violation("expected-errors", f"expected_errors({quals!r}) = {got!r}, reference {exp!r}", case)
-    # other quality bases than 33 (--quality-base takes any number): for characters at or above the base the sum is
-    # defined; the function may refuse the string, but a value it returns has to be that sum
+    # other quality bases than 33 (--quality-base takes any number): the function may refuse the string (it does so for
+    # characters below the base), but a value it returns has to be the sum of 10^(-Q/10)
     h = sum(map(ord, quals)) + len(quals)
-    base = (0, 10, 20, 32, 40, 59, 64, 100)[h % 8]
-    if quals and all(ord(c) >= base for c in quals):
+    base = (0, 10, 20, 32, 40, 59, 64, 100, 126, 127, 200, 255)[h % 12]
+    if quals:
         ctx.count("expected_errors_calls_with_another_base")
         try:
             got_b = expected_errors(quals, base)
